@@ -173,9 +173,16 @@ class Block:
         self.L_vals = lc.cast_values(Lnom, self.dt_aux)
         self.L_SI = [mpf(lc.exact(v) * lc.si(u_L)) for v in self.L_vals]
         th = []
+        tiny = self.rng.choice([2e-8, 1e-9, 3e-11, 1e-13]) if (not lc.is_int(self.dt_aux) and self.rng.random() < 0.12) else 0
+        tiny_off = self.rng.randrange(2)
         for p in range(self.P):
             sn, sd = self.gp[p][0][2], self.gp[p][0][3]
             tt = 2 * mpmath.asin(mpf(Fraction(sn, sd)))
+            if tiny and (p + tiny_off) % 2 == 0:
+                # the quantifier is "all scattering angles in (0, pi]": angles far below the grid's smallest
+                # (2e-6 rad), down to 1e-13 rad; the expected value follows through (s_eff / s)^g like every
+                # other rounding of the angle (d up to 1e13 angstrom, Q down to 1e-13 / angstrom: ordinary doubles)
+                tt = mpf(tiny)
             th.append(float(tt if u_th == 'rad' else tt * 180 / mpmath.pi))
         self.th_vals = lc.cast_values(th, self.dt_aux)
         if lc.is_int(self.dt_aux):
